@@ -169,18 +169,8 @@ def atoms_for(s, directions, seed=0):
 
 # ----------------------------------------------------------------------------- generation
 @st.composite
-def dro_case(draw, polyhedral=True, allow_kl=False, max_scen=4, allow_lift=True, affine_ok=True):
-    S = draw(st.integers(1, max_scen))
-    nz = draw(st.integers(1, 3))
-    lift = allow_lift and draw(st.integers(0, 5)) == 0
-    labels = draw(st.sampled_from(['int', 'str']))
-    supports = []
-    for s in range(S):
-        centre = [draw(st.sampled_from([-1.0, 0.0, 0.5, 1.0, 2.0])) for _ in range(nz)]
-        supports.append(draw(support_ir(nz, centre, polyhedral=polyhedral, lift=lift)))
-    nu = 1 if lift else 0
-    nw = nz + nu
-    # probabilities
+def _prob_exps(draw, S, nw, supports, allow_kl):
+    """probability set and expectation sets of one ambiguity set, built around its centre distribution"""
     parts = [draw(st.integers(1, 4)) for _ in range(S)]
     phat = [v / sum(parts) for v in parts]
     pk = draw(st.sampled_from(['fixed', 'box', 'l1', 'free'] + (['kl', 'l2'] if allow_kl else []))) if S > 1 else 'fixed'
@@ -224,6 +214,31 @@ def dro_case(draw, polyhedral=True, allow_kl=False, max_scen=4, allow_lift=True,
             e['g'] = g
             e['h'] = float(np.dot(g, mean[comps])) + draw(st.sampled_from([0.25, 0.5, 1.0]))
         exps.append(e)
+    return prob, exps
+
+
+@st.composite
+def dro_case(draw, polyhedral=True, allow_kl=False, max_scen=4, allow_lift=True, affine_ok=True, econs=False, amb2_ok=False, det_obj=False):
+    S = draw(st.integers(1, max_scen))
+    nz = draw(st.integers(1, 3))
+    lift = allow_lift and draw(st.integers(0, 5)) == 0
+    labels = draw(st.sampled_from(['int', 'str']))
+    supports = []
+    for s in range(S):
+        centre = [draw(st.sampled_from([-1.0, 0.0, 0.5, 1.0, 2.0])) for _ in range(nz)]
+        supports.append(draw(support_ir(nz, centre, polyhedral=polyhedral, lift=lift)))
+    nu = 1 if lift else 0
+    nw = nz + nu
+    prob, exps = draw(_prob_exps(S, nw, supports, allow_kl))
+    amb2 = None
+    if amb2_ok and draw(st.integers(0, 2)) == 0:
+        # a second ambiguity set of the same model (used through constr.forall(ambset2))
+        sup2 = []
+        for s in range(S):
+            centre = [draw(st.sampled_from([-1.0, 0.0, 0.5, 1.0, 2.0])) for _ in range(nz)]
+            sup2.append(draw(support_ir(nz, centre, polyhedral=polyhedral, lift=lift)))
+        prob2, exps2 = draw(_prob_exps(S, nw, sup2, allow_kl))
+        amb2 = {'supports': sup2, 'prob': prob2, 'exps': exps2}
     # an equality expectation set on an event whose scenarios all have point supports may be inconsistent with other
     # probabilities; the centre distribution satisfies every set strictly (or with equality for 'eq'), so the ambiguity set
     # is non-empty by construction
@@ -274,6 +289,23 @@ def dro_case(draw, polyhedral=True, allow_kl=False, max_scen=4, allow_lift=True,
             row['a0'][0] = 1.0
         if not any(row['c']) and draw(st.booleans()):
             row['explicit_zero'] = True      # 'a.x + 0*z <= b': a random term with all-zero coefficients
+        if amb2 is not None and draw(st.booleans()):
+            row['amb'] = 1                   # constr.forall(ambset2)
+        elif amb2_ok and draw(st.integers(0, 3)) == 0:
+            row['amb_explicit'] = True       # constr.forall(ambset) spelled out for the objective's ambiguity set
+        if amb2_ok and not row.get('amb') and draw(st.integers(0, 5)) == 0:
+            # constr.forall(<support constraints>): one support for all scenarios, given as a plain collection of constraints
+            centre = [draw(st.sampled_from([-1.0, 0.0, 0.5, 1.0, 2.0])) for _ in range(nz)]
+            row['fsupp'] = draw(support_ir(nz, centre, polyhedral=polyhedral, lift=lift))
+            row.pop('amb_explicit', None)
+        elif econs and draw(st.integers(0, 2)) == 0:
+            # a constraint on the worst-case expectation: E(e) <= 0, or E(maxof(e, e2)) <= 0 / E(minof(e, e2)) >= 0
+            row['E'] = True
+            row.pop('explicit_zero', None)
+            if draw(st.integers(0, 2)) == 0:
+                alt = {'a0': _vec(draw, nx), 'b': _vec(draw, ny), 'c': _vec(draw, nw), 'c0': None,
+                       'slack': draw(st.sampled_from([0.0, 0.5, 1.0, 2.0])), 'sense': row['sense']}
+                row['alt'] = alt
         cons.append(row)
     okind = draw(st.sampled_from(['minsup', 'minsup', 'maxinf']))
     npieces = draw(st.sampled_from([1, 1, 2, 3]))
@@ -281,13 +313,24 @@ def dro_case(draw, polyhedral=True, allow_kl=False, max_scen=4, allow_lift=True,
     for _ in range(npieces):
         pc = {'d0': _vec(draw, nx), 'e': _vec(draw, ny), 'f': _vec(draw, nw), 'f0': float(draw(st.integers(-1, 1)))}
         pieces.append(pc)
+    if det_obj and draw(st.integers(0, 5)) == 0:
+        # m.min(expr) / m.max(expr): no default ambiguity set, every uncertain constraint names its set through forall();
+        # the objective is affine in x and in the event-wise constants of y (worst scenario counts), without random terms
+        okind = 'min' if okind == 'minsup' else 'max'
+        pieces = pieces[:1]
+        pieces[0]['f'] = [0.0] * nw
+        pieces[0]['e'] = [v if not any(ymask[k]) else 0.0 for k, v in enumerate(pieces[0]['e'])]
+        for row in cons:
+            if not row.get('amb') and not row.get('fsupp'):
+                row['amb_explicit'] = True
+                row.pop('explicit_zero', None)
     if not any(any(pc['d0']) or any(pc['e']) for pc in pieces):
         pieces[0]['d0'][0] = 1.0
     case = {'S': S, 'labels': labels, 'nz': nz, 'nu': nu, 'supports': supports, 'prob': prob, 'exps': exps,
             'nx': nx, 'ny': ny, 'ny2': ny2, 'adapt_calls': calls, 'adapt_calls2': calls2, 'ymask': ymask,
             'xpos': draw(st.integers(0, 2)), 'xlo': xlo, 'xhi': xhi, 'cons': cons,
             'obj': {'kind': okind, 'pieces': pieces}, 'witness': {'x': xbar, 'y': ybar},
-            'supp_style': draw(st.sampled_from(['each', 'grouped']))}
+            'supp_style': draw(st.sampled_from(['each', 'grouped'])), 'amb2': amb2}
     fill_constants(case)
     return case
 
@@ -318,20 +361,44 @@ def group_of(case, k):
     return 1 if k >= case['ny'] - case.get('ny2', 0) else 0
 
 
+def amb_view(case, i):
+    """the case with the i-th ambiguity set (0 = the objective's, 1 = case['amb2']) as its supports / prob / exps"""
+    if not i:
+        return case
+    a = case['amb2']
+    return dict(case, supports=a['supports'], prob=a['prob'], exps=a['exps'])
+
+
+def row_view(case, row):
+    """the case as seen by a constraint: its own support (forall(<constraints>)), the second ambiguity set, or the default"""
+    if row.get('fsupp'):
+        return dict(case, supports=[row['fsupp']] * case['S'])
+    return amb_view(case, row.get('amb', 0))
+
+
+def row_pieces(row):
+    """affine pieces of a constraint: E rows may carry a second piece (E(maxof) <= 0 / E(minof) >= 0)"""
+    return [row] + ([row['alt']] if row.get('alt') else [])
+
+
 def fill_constants(case):
+    """constants such that every affine piece of every row has slack >= row['slack'] at the witness for every realisation of the
+    supports of the row's ambiguity set (so E rows hold at the witness under every distribution)"""
     x, y = np.array(case['witness']['x']), np.array(case['witness']['y'])
-    for row in case['cons']:
-        k = float(np.array(row['a0']) @ x + (np.array(row['b']) @ y if len(y) else 0.0))
-        g = np.array(row['c'], dtype=float)
-        worst = -np.inf
-        for s in case['supports']:
-            gg = g if row['sense'] == 'le' else -g
-            val = support_max(s, gg, fallback=float(gg[:s['nz']] @ np.array(s['centre'])) + 10.0)
-            worst = max(worst, val)
-        if row['sense'] == 'le':
-            row['c0'] = float(-(k + worst) - row['slack'])
-        else:
-            row['c0'] = float(-(k - worst) + row['slack'])
+    for row0 in case['cons']:
+        sups = row_view(case, row0)['supports']
+        for row in row_pieces(row0):
+            k = float(np.array(row['a0']) @ x + (np.array(row['b']) @ y if len(y) else 0.0))
+            g = np.array(row['c'], dtype=float)
+            worst = -np.inf
+            for s in sups:
+                gg = g if row0['sense'] == 'le' else -g
+                val = support_max(s, gg, fallback=float(gg[:s['nz']] @ np.array(s['centre'])) + 10.0)
+                worst = max(worst, val)
+            if row0['sense'] == 'le':
+                row['c0'] = float(-(k + worst) - row['slack'])
+            else:
+                row['c0'] = float(-(k - worst) + row['slack'])
 
 
 def support_max(s, g, fallback=None):
@@ -378,6 +445,7 @@ def build(case):
     z = m.rvar(nz)
     u = m.rvar() if nu else None
     fset = m.ambiguity()
+    fset2 = m.ambiguity() if case.get('amb2') else None
     if ny:
         import rsome as rso_
         for yv, calls in ((ya, case['adapt_calls']), (yb, case.get('adapt_calls2', []))):
@@ -417,57 +485,61 @@ def build(case):
             e = t if e is None else e + t
         return e if e is not None else 0.0
     y = ydot if ny else None
-    # supports
-    done = set()
-    for s in range(S):
-        if s in done:
-            continue
-        same = [s]
-        if case['supp_style'] == 'grouped':
-            same = [t for t in range(s, S) if case['supports'][t] == case['supports'][s] and t not in done]
-        cons = support_constraints(case['supports'][s], z, u)
-        if len(same) == 1:
-            fset[lab[s]].suppset(*cons) if s % 2 else fset[lab[s]].suppset(cons)
-        else:
-            fset[[lab[t] for t in same]].suppset(cons)
-        done.update(same)
-    # expectation sets
-    for e in case['exps']:
-        Ez, Eu = E(z), (E(u) if nu else None)
+    def declare_amb(fs, amb):
+        # supports
+        done = set()
+        for s in range(S):
+            if s in done:
+                continue
+            same = [s]
+            if case['supp_style'] == 'grouped':
+                same = [t for t in range(s, S) if amb['supports'][t] == amb['supports'][s] and t not in done]
+            cons = support_constraints(amb['supports'][s], z, u)
+            if len(same) == 1:
+                fs[lab[s]].suppset(*cons) if s % 2 else fs[lab[s]].suppset(cons)
+            else:
+                fs[[lab[t] for t in same]].suppset(cons)
+            done.update(same)
+        # expectation sets
+        for e in amb['exps']:
+            Ez, Eu = E(z), (E(u) if nu else None)
 
-        def comp(j):
-            return Ez[j] if j < nz else Eu
-        cs = []
-        if e['kind'] == 'box':
-            for j, lo, hi in zip(e['comps'], e['lo'], e['hi']):
-                cs += [comp(j) >= lo, comp(j) <= hi]
-        elif e['kind'] == 'eq':
-            cs.append(comp(e['comps'][0]) == e['val'][0])
-        elif e['kind'] == 'l1':
-            terms = [comp(j) - c for j, c in zip(e['comps'], e['c'])]
-            cs.append(rso.norm(rso.vec(*terms), 1) <= e['r'])
-        else:
-            expr = 0
-            for j, g in zip(e['comps'], e['g']):
-                expr = expr + g * comp(j)
-            cs.append(expr <= e['h'])
-        ev = e['event']
-        if len(ev) == S:
-            fset.exptset(*cs)
-        else:
-            fset[[lab[s] for s in ev]].exptset(*cs)
-    p = m.p
-    pr = case['prob']
-    if pr['t'] == 'fixed':
-        fset.probset(p == np.array(pr['p']))
-    elif pr['t'] == 'box':
-        fset.probset(p >= np.array(pr['lo']), p <= np.array(pr['hi']))
-    elif pr['t'] == 'l1':
-        fset.probset(rso.norm(p - np.array(pr['phat']), 1) <= pr['r'])
-    elif pr['t'] == 'l2':
-        fset.probset(rso.norm(p - np.array(pr['phat'])) <= pr['r'])
-    elif pr['t'] == 'kl':
-        fset.probset(rso.kldiv(p, np.array(pr['phat']), pr['r']))
+            def comp(j):
+                return Ez[j] if j < nz else Eu
+            cs = []
+            if e['kind'] == 'box':
+                for j, lo, hi in zip(e['comps'], e['lo'], e['hi']):
+                    cs += [comp(j) >= lo, comp(j) <= hi]
+            elif e['kind'] == 'eq':
+                cs.append(comp(e['comps'][0]) == e['val'][0])
+            elif e['kind'] == 'l1':
+                terms = [comp(j) - c for j, c in zip(e['comps'], e['c'])]
+                cs.append(rso.norm(rso.vec(*terms), 1) <= e['r'])
+            else:
+                expr = 0
+                for j, g in zip(e['comps'], e['g']):
+                    expr = expr + g * comp(j)
+                cs.append(expr <= e['h'])
+            ev = e['event']
+            if len(ev) == S:
+                fs.exptset(*cs)
+            else:
+                fs[[lab[s] for s in ev]].exptset(*cs)
+        p = m.p
+        pr = amb['prob']
+        if pr['t'] == 'fixed':
+            fs.probset(p == np.array(pr['p']))
+        elif pr['t'] == 'box':
+            fs.probset(p >= np.array(pr['lo']), p <= np.array(pr['hi']))
+        elif pr['t'] == 'l1':
+            fs.probset(rso.norm(p - np.array(pr['phat']), 1) <= pr['r'])
+        elif pr['t'] == 'l2':
+            fs.probset(rso.norm(p - np.array(pr['phat'])) <= pr['r'])
+        elif pr['t'] == 'kl':
+            fs.probset(rso.kldiv(p, np.array(pr['phat']), pr['r']))
+    declare_amb(fset, case)
+    if fset2 is not None:
+        declare_amb(fset2, case['amb2'])
     # objective
     o = case['obj']
 
@@ -482,30 +554,53 @@ def build(case):
             e = e + float(f[nz]) * u
         return e
     pcs = [piece_expr(pc) for pc in o['pieces']]
-    if len(pcs) == 1:
-        obj = E(pcs[0])
-    elif o['kind'] == 'minsup':
-        obj = E(rso.maxof(*pcs))
+    if o['kind'] in ('min', 'max'):
+        (m.min if o['kind'] == 'min' else m.max)(pcs[0])
     else:
-        obj = E(rso.minof(*pcs))
-    (m.minsup if o['kind'] == 'minsup' else m.maxinf)(obj, fset)
+        if len(pcs) == 1:
+            obj = E(pcs[0])
+        elif o['kind'] == 'minsup':
+            obj = E(rso.maxof(*pcs))
+        else:
+            obj = E(rso.minof(*pcs))
+        (m.minsup if o['kind'] == 'minsup' else m.maxinf)(obj, fset)
     m.st(x >= np.array(case['xlo']), x <= np.array(case['xhi']))
-    for row in case['cons']:
+    def row_expr(row, style, zero=False):
         e = np.array(row['a0']) @ x + row['c0']
         if ny and any(row['b']):
             e = e + ydot(row['b'])
         c = np.array(row['c'])
-        if np.any(c[:nz]) or row.get('explicit_zero'):
-            e = e + (c[:nz] @ z if row['style'] != 1 else (c[:nz] * z).sum())
+        if np.any(c[:nz]) or zero:
+            e = e + (c[:nz] @ z if style != 1 else (c[:nz] * z).sum())
         if nu and c[nz]:
             e = e + float(c[nz]) * u
-        m.st(e <= 0 if row['sense'] == 'le' else e >= 0)
-    return m, {'x': x, 'y': y, 'ya': ya if ny else None, 'yb': yb if ny else None, 'z': z, 'u': u, 'fset': fset, 'labels': lab}
+        return e
+    for row in case['cons']:
+        e = row_expr(row, row['style'], row.get('explicit_zero'))
+        if row.get('E'):
+            if row.get('alt'):
+                e2 = row_expr(row['alt'], row['style'])
+                con = (E(rso.maxof(e, e2)) <= 0) if row['sense'] == 'le' else (E(rso.minof(e, e2)) >= 0)
+            else:
+                con = (E(e) <= 0) if row['sense'] == 'le' else (E(e) >= 0)
+        else:
+            con = (e <= 0) if row['sense'] == 'le' else (e >= 0)
+        if row.get('fsupp'):
+            sc = support_constraints(row['fsupp'], z, u)
+            con = con.forall(sc) if row["style"] != 2 else con.forall(tuple(sc))
+        elif row.get('amb'):
+            con = con.forall(fset2)
+        elif row.get('amb_explicit'):
+            con = con.forall(fset)
+        m.st(con)
+    return m, {'x': x, 'y': y, 'ya': ya if ny else None, 'yb': yb if ny else None, 'z': z, 'u': u, 'fset': fset, 'fset2': fset2,
+               'labels': lab}
 
 
 def pick_solver(case):
     from rsome import eco_solver
-    conic = any(p['t'] == 'l2' for s in case['supports'] for p in s['pieces']) or case['prob']['t'] in ('kl', 'l2')
+    ambs = [case] + ([case['amb2']] if case.get('amb2') else []) + [{'supports': [r['fsupp']], 'prob': {'t': 'fixed'}} for r in case['cons'] if r.get('fsupp')]
+    conic = any(p['t'] == 'l2' for a in ambs for s in a['supports'] for p in s['pieces']) or any(a['prob']['t'] in ('kl', 'l2') for a in ambs)
     return (eco_solver, 'conic') if conic else (None, 'lp')
 
 
@@ -560,7 +655,47 @@ def integrand(case, x, y0s, Ys, w):
     y = y0s + Ys @ w if len(y0s) else y0s
     vals = [float(np.array(pc['d0']) @ x + (np.array(pc['e']) @ y if len(y) else 0.0) + np.array(pc['f']) @ w + pc['f0'])
             for pc in case['obj']['pieces']]
-    return max(vals) if case['obj']['kind'] == 'minsup' else min(vals)
+    return max(vals) if case['obj']['kind'] in ('minsup', 'min') else min(vals)
+
+
+def row_integrand(row0, x, y0s, Ys, w):
+    """value of a constraint's left-hand side at atom w: max of the pieces for '<= 0' rows, min for '>= 0' rows"""
+    y = y0s + Ys @ w if len(y0s) else y0s
+    vals = [float(np.array(r['a0']) @ x + (np.array(r['b']) @ y if len(y) else 0.0) + np.array(r['c']) @ w + r['c0'])
+            for r in row_pieces(row0)]
+    return max(vals) if row0['sense'] == 'le' else min(vals)
+
+
+def adversary(view, x, y0, Y, pieces_dirs, fun, sign):
+    """worst-case expectation (sign=+1: sup, -1: inf) of fun(s, w) over the ambiguity set `view` attacked with finitely many
+    atoms; returns (value, weights, p, atoms, exact) for a verified member of the set, or None"""
+    S, nz, nu, ny = view['S'], view['nz'], view['nu'], view['ny']
+    atoms, exact = [], True
+    for s in range(S):
+        ds = [d + (Y[s].T @ np.array(e) if ny else 0.0) for d, e in pieces_dirs]
+        a, ex = atoms_for(view['supports'][s], ds + [np.eye(nz + nu)[j] for j in range(nz)], seed=s)
+        if nu and a.shape[1] == nz:
+            return None
+        atoms.append(a)
+        exact = exact and ex
+    vals = [[fun(s, w) for w in atoms[s]] for s in range(S)]
+    results = []
+    if view['prob']['t'] in ('kl', 'l2'):
+        gains = [max(v) if sign > 0 else -min(v) for v in vals]
+        for pc in p_candidates(view, gains):
+            r = worst_case(view, atoms, vals, sign=sign, p_fixed=pc)
+            if r is not None:
+                results.append(r)
+    else:
+        r = worst_case(view, atoms, vals, sign=sign)
+        if r is not None:
+            results.append(r)
+    if not results:
+        return None
+    wval, wts, p = max(results, key=lambda r: sign * r[0])
+    if verify_distribution(view, atoms, wts):
+        return None
+    return wval, wts, p, atoms, exact
 
 
 def prob_violation(pr, p):
@@ -734,12 +869,15 @@ def reference_optimum(case, max_rounds=60, tol=1e-7):
     inner moment LP.  Only for polytope supports and polyhedral probability sets."""
     S, nx, ny, nz, nu = case['S'], case['nx'], case['ny'], case['nz'], case['nu']
     nw = nz + nu
-    atoms = []
-    for s in case['supports']:
-        V = vertices(s)
-        if V is None:
-            return None, 'support not enumerable'
-        atoms.append(V)
+    atoms_by = {}
+    for a in ([0, 1] if case.get('amb2') else [0]):
+        atoms_by[a] = []
+        for s in amb_view(case, a)['supports']:
+            V = vertices(s)
+            if V is None:
+                return None, 'support not enumerable'
+            atoms_by[a].append(V)
+    atoms = atoms_by[0]
     mask = np.array(case['ymask']).reshape(ny, nw).astype(bool) if ny else np.zeros((0, nw), dtype=bool)
     gidx = [event_index(case, 0), event_index(case, 1)]
     # layout: for every y entry k and every event of its group: one constant + one coefficient per declared dependency
@@ -752,7 +890,8 @@ def reference_optimum(case, max_rounds=60, tol=1e-7):
         pos += len(ev_k) * (1 + len(deps))
     nv = pos + 1
     T = nv - 1
-    sign = 1.0 if case['obj']['kind'] == 'minsup' else -1.0
+    sign = 1.0 if case['obj']['kind'] in ('minsup', 'min') else -1.0
+    det_obj = case['obj']['kind'] in ('min', 'max')
 
     def ycoef(s, w):
         """matrix R (ny x nv) with y_s(w) = R v"""
@@ -779,10 +918,18 @@ def reference_optimum(case, max_rounds=60, tol=1e-7):
         return x, y0, Y
     A_ub, b_ub = [], []
     # robust rows at every vertex of every scenario (exact for polytopes)
+    erows = []
     for row in case['cons']:
         sg = 1.0 if row['sense'] == 'le' else -1.0
+        if row.get('E'):
+            erows.append(row)
+            continue
+        if row.get('fsupp'):
+            Vr = vertices(row['fsupp'])
+            if Vr is None:
+                return None, 'support not enumerable'
         for s in range(S):
-            for w in atoms[s]:
+            for w in (Vr if row.get('fsupp') else atoms_by[row.get('amb', 0)][s]):
                 coef = np.zeros(nv)
                 coef[:nx] = row['a0']
                 if ny:
@@ -820,15 +967,58 @@ def reference_optimum(case, max_rounds=60, tol=1e-7):
             v[T] = -1e7
         x, y0, Y = unpack(v)
         vals = [[integrand(case, x, y0[s], Y[s], w) for w in atoms[s]] for s in range(S)]
-        wc = worst_case(case, atoms, vals, sign=sign)
+        if det_obj:
+            # m.min / m.max: the objective bounds the expression in every scenario (no probabilities involved)
+            sv = [vals[s][0] for s in range(S)]
+            sb = int(np.argmax(sign * np.array(sv)))
+            wts = [np.zeros(len(atoms[s])) for s in range(S)]
+            wts[sb][0] = 1.0
+            wc = (sv[sb], wts, np.eye(S)[sb])
+        else:
+            wc = worst_case(case, atoms, vals, sign=sign)
         if wc is None:
             return None, 'inner moment LP failed (ambiguity set empty?)'
         val, wts, p = wc          # val = sup E[f] for minsup; inf E[f] for maxinf
         gap = sign * val - v[T]
-        if cuts and gap <= tol * (1 + abs(val)):
+        # expectation constraints: a cut at the worst distribution of the row's ambiguity set whenever it is violated
+        ecut = 0
+        eact = 0
+        for row0 in erows:
+            a = row0.get('amb', 0)
+            view = amb_view(case, a)
+            sg = 1.0 if row0['sense'] == 'le' else -1.0
+            rv = [[row_integrand(row0, x, y0[s], Y[s], w) for w in atoms_by[a][s]] for s in range(S)]
+            wr = worst_case(view, atoms_by[a], rv, sign=sg)
+            if wr is None:
+                return None, 'inner moment LP of an expectation constraint failed'
+            if abs(wr[0]) <= 1e-6:
+                eact += 1
+            if sg * wr[0] <= tol:
+                continue
+            coef = np.zeros(nv)
+            const = 0.0
+            for s in range(S):
+                for w, wt in zip(atoms_by[a][s], wr[1][s]):
+                    if wt <= 0:
+                        continue
+                    best = None
+                    for r in row_pieces(row0):
+                        cc = np.zeros(nv)
+                        cc[:nx] = r['a0']
+                        if ny:
+                            cc += np.array(r['b']) @ ycoef(s, w)
+                        k0 = float(np.array(r['c']) @ w + r['c0'])
+                        valp = cc @ v + k0
+                        if best is None or (valp > best[0] if sg > 0 else valp < best[0]):
+                            best = (valp, cc, k0)
+                    coef += wt * best[1]
+                    const += wt * best[2]
+            A_ub.append(sg * coef); b_ub.append(-sg * const)
+            ecut += 1
+        if cuts and ecut == 0 and gap <= tol * (1 + abs(val)):
             if np.any(np.abs(v[nx:T]) > 0.99e4):
                 return None, 'artificial bound active'
-            return float(val), {'rounds': rnd + 1, 'x': x, 'y0': y0, 'Y': Y, 'p': p}
+            return float(val), {'rounds': rnd + 1, 'x': x, 'y0': y0, 'Y': Y, 'p': p, 'erow_active': eact}
         coef = np.zeros(nv)
         const = 0.0
         for s in range(S):
